@@ -2,8 +2,8 @@ package main
 
 import (
 	"fmt"
-	"regexp"
 	"go/types"
+	"regexp"
 	"sort"
 	"strconv"
 	"strings"
@@ -257,11 +257,46 @@ type originVerdict struct{ kind, reason string }
 // Reviewed verdicts for business origins (NEW / SENTINEL) per total entry point.
 var errorOriginTable = map[string]map[string]originVerdict{
 	"keeper.Hooks.BeforeValidatorSlashed": {
-		"keeper.Keeper.SlashValidator | NEW(fmt.Errorf#1)":                                     {"precondition", "fraction range error: staking computes the fraction as min(burn/tokens, 1) with tokens > 0 and calls the hook only when it is positive"},
-		"keeper.Keeper.GetAllianceValidator | NEW(fmt.Errorf#1)":                               {"precondition", "validator-not-found: the slashed validator exists in staking (Slash loaded it); a redelegation destination exists while it has delegations (staking removes a validator only with zero delegator shares, AfterValidatorRemoved deletes its info)"},
-		"keeper.Keeper.SlashValidator | SENTINEL(types.ErrUnknownAsset)":                       {"precondition", "a denom with validator shares has an asset: DeleteAsset requires zero tokens and ResetAssetAndValidators strips the denom from every validator when the total returns to zero"},
-		"keeper.Keeper.ClaimDelegationRewards | SENTINEL(types.ErrUnknownAsset)":               {"guarded", "C08.claimguard: the claim inside slashRedelegations is dominated by a successful GetAssetByDenom for the same denom"},
+		"keeper.Keeper.SlashValidator | NEW(fmt.Errorf#1)":                                       {"precondition", "fraction range error: staking computes the fraction as min(burn/tokens, 1) with tokens > 0 and calls the hook only when it is positive"},
+		"keeper.Keeper.GetAllianceValidator | NEW(fmt.Errorf#1)":                                 {"precondition", "validator-not-found: the slashed validator exists in staking (Slash loaded it); a redelegation destination exists while it has delegations (staking removes a validator only with zero delegator shares, AfterValidatorRemoved deletes its info)"},
+		"keeper.Keeper.SlashValidator | SENTINEL(types.ErrUnknownAsset)":                         {"precondition", "a denom with validator shares has an asset: DeleteAsset requires zero tokens and ResetAssetAndValidators strips the denom from every validator when the total returns to zero"},
+		"keeper.Keeper.ClaimDelegationRewards | SENTINEL(types.ErrUnknownAsset)":                 {"guarded", "C08.claimguard: the claim inside slashRedelegations is dominated by a successful GetAssetByDenom for the same denom"},
 		"keeper.Keeper.ClaimDelegationRewards | SENTINEL(stakingtypes.ErrNoDelegatorForAddress)": {"guarded", "C08.claimguard: the claim inside slashRedelegations is dominated by a successful GetDelegation for the same key"},
+	},
+	"keeper.MsgServer.Delegate": {
+		"keeper.MsgServer.Delegate | NEW(status.Errorf#1)":                                       {"request", "amount must be positive"},
+		"keeper.Keeper.GetAllianceValidator | NEW(fmt.Errorf#1)":                                 {"request", "the validator does not exist in x/staking"},
+		"keeper.Keeper.Delegate | NEW(status.Errorf#1)":                                          {"request", "the denom is not a whitelisted alliance asset"},
+		"keeper.Keeper.ClaimDelegationRewards | SENTINEL(stakingtypes.ErrNoDelegatorForAddress)": {"guarded", "C08.claimguard: the claim is dominated by a successful GetDelegation for the same key"},
+		"keeper.Keeper.ClaimDelegationRewards | SENTINEL(types.ErrUnknownAsset)":                 {"precondition", "the same denom was found by GetAssetByDenom at the start of the operation (C01.pair.delegate anchors that lookup)"},
+	},
+	"keeper.MsgServer.Undelegate": {
+		"keeper.MsgServer.Undelegate | NEW(status.Errorf#1)":                                     {"request", "amount must be positive"},
+		"keeper.Keeper.GetAllianceValidator | NEW(fmt.Errorf#1)":                                 {"request", "the validator does not exist in x/staking"},
+		"keeper.Keeper.Undelegate | NEW(status.Errorf#1)":                                        {"request", "unknown asset"},
+		"keeper.Keeper.Undelegate | SENTINEL(stakingtypes.ErrNoDelegatorForAddress)":             {"request", "the delegator has no position of this denom on this validator"},
+		"keeper.Keeper.Undelegate | SENTINEL(types.ErrInsufficientTokens)":                       {"request", "amount above the position's token value; that the full REPORTED balance passes is a numeric boundary, covered only by the reviewed-reference rules F.tolerances and C20.balance (the reported balance is the cap's own formula)"},
+		"keeper.Keeper.ValidateDelegatedAmount | SENTINEL(stakingtypes.ErrInsufficientShares)":   {"request", "amount above the position's shares (tolerances: F.tolerances)"},
+		"keeper.Keeper.ClaimDelegationRewards | SENTINEL(stakingtypes.ErrNoDelegatorForAddress)": {"guarded", "C08.claimguard: dominated by a successful GetDelegation for the same key"},
+		"keeper.Keeper.ClaimDelegationRewards | SENTINEL(types.ErrUnknownAsset)":                 {"precondition", "the same denom was found by GetAssetByDenom at the start of the operation"},
+	},
+	"keeper.MsgServer.Redelegate": {
+		"keeper.MsgServer.Redelegate | NEW(status.Errorf#1)":                                     {"request", "amount must be positive"},
+		"keeper.Keeper.GetAllianceValidator | NEW(fmt.Errorf#1)":                                 {"request", "source or destination validator does not exist in x/staking"},
+		"keeper.Keeper.Redelegate | NEW(status.Errorf#1)":                                        {"request", "source and destination are the same validator"},
+		"keeper.Keeper.Redelegate | NEW(status.Errorf#2)":                                        {"request", "unknown asset"},
+		"keeper.Keeper.Redelegate | SENTINEL(stakingtypes.ErrNoDelegatorForAddress)":             {"request", "no position on the source validator"},
+		"keeper.Keeper.Redelegate | SENTINEL(stakingtypes.ErrTransitiveRedelegation)":            {"request", "a redelegation INTO the source validator is still pending (C15: the onward hop is blocked until maturity; C15.transitive decides the lookup key)"},
+		"keeper.Keeper.Redelegate | SENTINEL(types.ErrInsufficientTokens)":                       {"request", "amount above the position's token value (see Undelegate)"},
+		"keeper.Keeper.ValidateDelegatedAmount | SENTINEL(stakingtypes.ErrInsufficientShares)":   {"request", "amount above the position's shares"},
+		"keeper.Keeper.ClaimDelegationRewards | SENTINEL(stakingtypes.ErrNoDelegatorForAddress)": {"guarded", "C08.claimguard: both claims are dominated by a successful GetDelegation for their key"},
+		"keeper.Keeper.ClaimDelegationRewards | SENTINEL(types.ErrUnknownAsset)":                 {"precondition", "the same denom was found by GetAssetByDenom at the start of the operation"},
+	},
+	"keeper.MsgServer.ClaimDelegationRewards": {
+		"keeper.MsgServer.ClaimDelegationRewards | NEW(status.Errorf#1)":                         {"request", "empty denom"},
+		"keeper.Keeper.GetAllianceValidator | NEW(fmt.Errorf#1)":                                 {"request", "the validator does not exist in x/staking"},
+		"keeper.Keeper.ClaimDelegationRewards | SENTINEL(stakingtypes.ErrNoDelegatorForAddress)": {"request", "the delegator has no position: nothing to claim"},
+		"keeper.Keeper.ClaimDelegationRewards | SENTINEL(types.ErrUnknownAsset)":                 {"request", "unknown denom; an asset can be deleted only while nothing is staked in it (C16.delete), so no position with a positive balance is affected"},
 	},
 	"alliance.EndBlocker": {
 		"keeper.Keeper.UpdateAllianceAsset | SENTINEL(types.ErrUnknownAsset)":           {"precondition", "RewardWeightChangeHook passes assets that GetAllAssets just loaded"},
@@ -272,6 +307,10 @@ var errorOriginTable = map[string]map[string]originVerdict{
 }
 
 func originRule(id string, props []string, entry string, floor int) {
+	originRuleMsg(id, props, entry, floor, "which must not fail (staking only logs a failing slash hook; a failing EndBlocker halts the chain); it is not in the reviewed table of excluded/guarded origins")
+}
+
+func originRuleMsg(id string, props []string, entry string, floor int, msg string) {
 	register(&Rule{ID: id, Props: props, Floor: floor,
 		Doc: "every business-error origin that can propagate to " + entry + " is in the reviewed table",
 		Run: func(e *Engine, r *RuleRun) {
@@ -303,7 +342,7 @@ func originRule(id string, props []string, entry string, floor int) {
 				if v, ok := table[k]; ok {
 					r.OK(fk, construct, v.kind+": "+v.reason, pos)
 				} else {
-					r.Bad(fk, construct, "a business error created here can propagate to "+entry+", which must not fail (staking only logs a failing slash hook; a failing EndBlocker halts the chain); it is not in the reviewed table of excluded/guarded origins", nil, pos)
+					r.Bad(fk, construct, "a business error created here can propagate to "+entry+", "+msg, nil, pos)
 				}
 			}
 			r.Check(ext > 0, entry, "external/parse origins", fmt.Sprintf("%d error origins from external keeper calls and parsing of stored data are assumptions (A2)", ext), "no external origins found: the propagation analysis is not reaching the call tree")
@@ -313,14 +352,19 @@ func originRule(id string, props []string, entry string, floor int) {
 func init() {
 	originRule("C08.origins", []string{"C08"}, "keeper.Hooks.BeforeValidatorSlashed", 4)
 	originRule("C17.origins", []string{"C17"}, "alliance.EndBlocker", 5)
+	userMsg := "a user operation that must succeed for every valid request in every reachable state; this origin is not in the reviewed table, which lists every rejection as `request` (the answer to an invalid request: unknown asset or validator, amount above the position, pending redelegation), `guarded` or `finding`"
+	originRuleMsg("C05.origins.delegate", []string{"C05"}, "keeper.MsgServer.Delegate", 3, userMsg)
+	originRuleMsg("C05.origins.undelegate", []string{"C05"}, "keeper.MsgServer.Undelegate", 3, userMsg)
+	originRuleMsg("C05.origins.redelegate", []string{"C05", "C15"}, "keeper.MsgServer.Redelegate", 3, userMsg)
+	originRuleMsg("C05.origins.claim", []string{"C05"}, "keeper.MsgServer.ClaimDelegationRewards", 3, userMsg)
 
 	register(&Rule{ID: "C08.claimguard", Props: []string{"C08", "C05"}, Floor: 5,
 		Doc: "inside operations and callbacks a reward claim is dominated by a successful lookup of the same delegation (and asset in callbacks)",
 		Run: func(e *Engine, r *RuleRun) {
 			exempt := map[string]string{
-				"keeper.MsgServer.ClaimDelegationRewards":       "user-facing: the error is the answer",
-				"keeper.QueryServer.AllianceDelegationRewards":  "query: has its own not-found answer",
-				"bindings.QueryPlugin.GetDelegationRewards":     "query binding: the error is the answer",
+				"keeper.MsgServer.ClaimDelegationRewards":      "user-facing: the error is the answer",
+				"keeper.QueryServer.AllianceDelegationRewards": "query: has its own not-found answer",
+				"bindings.QueryPlugin.GetDelegationRewards":    "query binding: the error is the answer",
 			}
 			for _, c := range e.CallersOf("keeper.Keeper.ClaimDelegationRewards") {
 				fk := FuncKey(c.Fn)
